@@ -45,13 +45,31 @@ F_typed == << Ty(Mk(4, LM, "x", FALSE, <<col(2), aRp, col(3)>>, <<>>, 0, 0, TRUE
 F_typed3 == << Ty(Mk(4, LM2, "x", FALSE, <<col(2), aRp>>, <<>>, 0, 0, TRUE, FALSE, FALSE), 1),
                Ty(Mk(4, LM2, "x", FALSE, <<aRp, col(3)>>, <<>>, 0, 0, TRUE, FALSE, FALSE), 1),
                Ty(Mk(4, LM2, "x", FALSE, <<col(1), aRp>>, <<>>, 0, 0, TRUE, FALSE, FALSE), 2) >>
+(* the SAME function called by threads that share nothing but the module (separate connections, different ledgers):
+   every thread can be descheduled between the evaluation of the first and of the second operand *)
+F_func == << Mk(1, LA2, "p", FALSE, <<Fn("add", 2, 1), col(3)>>, <<>>, 0, 0, TRUE, FALSE, FALSE),
+             Mk(2, LB2, "p", FALSE, <<Fn("add", 2, 1)>>, <<>>, 0, 0, TRUE, FALSE, FALSE) >>
+(* three threads, two on one connection: the call is in the WHERE clause, its first operand a query parameter *)
+F_funcw == << Mk(1, LA2, "e", FALSE, <<col(3)>>, <<aFhi>>, 0, 11, FALSE, FALSE, FALSE),
+              Mk(1, LA2, "e", FALSE, <<col(2)>>, <<aFlo>>, 12, 0, FALSE, FALSE, FALSE),
+              Mk(2, LB2, "e", FALSE, <<Fn("first", 2, 3)>>, <<aFhi>>, 0, 21, TRUE, FALSE, FALSE) >>
+(* FROM-subqueries that give the same names different positions, one connection: the statements can be descheduled
+   between the construction of the subquery's table and the resolution of the names of the enclosing statement *)
+F_subq == << Sub(Mk(1, LA2, "p", FALSE, <<aCp, col(2), aRp, col(1)>>, <<>>, 0, 0, TRUE, FALSE, FALSE), <<1, 2>>),
+             Sub(Mk(1, LA2, "p", FALSE, <<aCp, col(2)>>, <<aHi>>, 0, 121, FALSE, FALSE, TRUE), <<2, 3, 1>>) >>
+(* three threads over three connections: a name resolved late, SELECT * over a subquery, a call over the names *)
+F_subq3 == << Sub(Mk(1, LA2, "p", FALSE, <<aCp, col(3)>>, <<>>, 0, 0, TRUE, FALSE, FALSE), <<3, 2>>),
+              Sub(Mk(2, LB2, "p", TRUE, <<>>, <<aCp>>, 0, 0, TRUE, FALSE, FALSE), <<2, 3>>),
+              Sub(Mk(3, LA2, "e", FALSE, <<aCp, Fn("first", 2, 1)>>, <<>>, 0, 0, TRUE, FALSE, FALSE), <<1, 2>>) >>
 FamilyJobs(name) ==
     CASE name = "params" -> F_params [] name = "star" -> F_star [] name = "rows" -> F_rows
       [] name = "tables" -> F_tables [] name = "mix3" -> F_mix3 [] name = "sep3" -> F_sep3
       [] name = "parse" -> F_parse [] name = "parse3" -> F_parse3
       [] name = "typed" -> F_typed [] name = "typed3" -> F_typed3
+      [] name = "func" -> F_func [] name = "funcw" -> F_funcw [] name = "subq" -> F_subq [] name = "subq3" -> F_subq3
 
-Families == IF Family = "all" THEN {"params", "star", "rows", "tables", "mix3", "sep3", "parse", "parse3", "typed", "typed3"}
+Families == IF Family = "all" THEN {"params", "star", "rows", "tables", "mix3", "sep3", "parse", "parse3", "typed", "typed3",
+                                   "func", "funcw", "subq", "subq3"}
             ELSE {Family}
 JobsOf(f) == [t \in Threads |-> IF t <= Len(FamilyJobs(f)) THEN FamilyJobs(f)[t] ELSE Job0]
 FamilyOf(js) == CHOOSE f \in Families : JobsOf(f) = js
